@@ -184,6 +184,10 @@ fn string_methods(
         }
         "count" => {
             let (what,): (&str,) = from_args(args)?;
+            if what.is_empty() {
+                // like in Python the empty string is found between all characters
+                return Ok(Value::from(s.chars().count() + 1));
+            }
             let mut c = 0;
             let mut rest = s;
             while let Some(offset) = rest.find(what) {
